@@ -8,7 +8,8 @@
 (*   new(c, m, d)      NewError(m, c, d); c may be a custom code or ""      *)
 (*   plain(m)          errors.New(m): no OCI code at all                    *)
 (*   fmt(m, kids)      fmt.Errorf("<m>: %w: %w ...", kids...)               *)
-(*   http(s, kids)     NewHTTPError(kid or nil, s, nil, nil)                *)
+(*   http(s, kids)     NewHTTPError(kid or nil, s, nil, nil), or with a     *)
+(*                     response and body when the node's resp is TRUE       *)
 (* Messages are not strings but sequences of tokens, rendered by joining   *)
 (* the token texts with ": ":                                              *)
 (*   S(n)  the status prefix "<n> <StatusText(n)>"                          *)
@@ -67,11 +68,15 @@ B(x) == [t |-> "B", v |-> x]
 E == [t |-> "E", v |-> ""]
 
 \* ------------------------------------------------------------------- trees
-Std(c) == [k |-> "std", code |-> c, status |-> 0, msg |-> <<>>, detail |-> "none", kids |-> <<>>]
-New(c, m, d) == [k |-> "new", code |-> c, status |-> 0, msg |-> m, detail |-> d, kids |-> <<>>]
-Plain(m) == [k |-> "plain", code |-> "", status |-> 0, msg |-> m, detail |-> "none", kids |-> <<>>]
-Fmt(m, ks) == [k |-> "fmt", code |-> "", status |-> 0, msg |-> m, detail |-> "none", kids |-> ks]
-Http(s, ks) == [k |-> "http", code |-> "", status |-> s, msg |-> <<>>, detail |-> "none", kids |-> ks]
+\* `resp` (HTTP wrappers only): the wrapper was made from an actual *http.Response (what ociclient
+\* returns, or NewHTTPError with a non-nil response and body) rather than with a nil response.  No
+\* law depends on it: MarshalError answers a tabled code with its tabled status either way.
+Std(c) == [k |-> "std", code |-> c, status |-> 0, msg |-> <<>>, detail |-> "none", kids |-> <<>>, resp |-> FALSE]
+New(c, m, d) == [k |-> "new", code |-> c, status |-> 0, msg |-> m, detail |-> d, kids |-> <<>>, resp |-> FALSE]
+Plain(m) == [k |-> "plain", code |-> "", status |-> 0, msg |-> m, detail |-> "none", kids |-> <<>>, resp |-> FALSE]
+Fmt(m, ks) == [k |-> "fmt", code |-> "", status |-> 0, msg |-> m, detail |-> "none", kids |-> ks, resp |-> FALSE]
+Http(s, ks) == [k |-> "http", code |-> "", status |-> s, msg |-> <<>>, detail |-> "none", kids |-> ks, resp |-> FALSE]
+HttpR(s, ks) == [k |-> "http", code |-> "", status |-> s, msg |-> <<>>, detail |-> "none", kids |-> ks, resp |-> TRUE]
 
 Range(s) == {s[i] : i \in 1..Len(s)}
 
@@ -111,8 +116,8 @@ TrimX(m, tok, exact) == IF exact /\ m = <<tok>> THEN <<E>> ELSE Trim(m, tok)
 WireMsg(t, exact) == TrimX(Trim(Msg(t), S(Status(t))), C(WireCode(t)), exact)
 
 \* --------------------------------------------------------------- unmarshal
-BodyErr(st, code, m, d) == Http(st, <<New(code, m, d)>>)
-HeadErr(st) == Http(st, IF st \in DOMAIN HeadRep THEN <<Std(HeadRep[st])>> ELSE <<>>)
+BodyErr(st, code, m, d) == HttpR(st, <<New(code, m, d)>>)
+HeadErr(st) == HttpR(st, IF st \in DOMAIN HeadRep THEN <<Std(HeadRep[st])>> ELSE <<>>)
 Hop(t, kind, exact) ==
   IF kind = "HEAD" THEN HeadErr(Status(t))
   ELSE BodyErr(Status(t), WireCode(t), WireMsg(t, exact), WireDetail(t))
